@@ -51,6 +51,7 @@ def build_support(ctx):
     jobs = []
     jobs.append(ctx.pool.submit(sh, ['clang++-14'] + IR_FLAGS + ['-fno-builtin', os.path.join(RT, 'models.cc'), '-o', os.path.join(ctx.work, 'models.bc')]))
     jobs.append(ctx.pool.submit(sh, ['clang-14', '-O1', '-fno-builtin', '-emit-llvm', '-c', os.path.join(RT, 'libc_models.c'), '-o', os.path.join(ctx.work, 'libc.bc')]))
+    jobs.append(ctx.pool.submit(sh, ['clang++-14'] + IR_FLAGS + [os.path.join(RT, 'convert_models.cc'), '-o', os.path.join(ctx.work, 'convert_models.bc')]))
     jobs.append(ctx.pool.submit(sh, ['g++'] + NATIVE_FLAGS + ['-c', os.path.join(RT, 'vs_native.cc'), '-o', os.path.join(ctx.work, 'vs_native.o')]))
     return jobs
 
@@ -77,7 +78,7 @@ def build_query(ctx, h, cfg, tag):
     src = os.path.join(VERIF, h['src'])
     r = sh(['clang++-14'] + IR_FLAGS + defs(cfg) + [src, '-o', base + '.h.bc'])
     if r.returncode != 0: return None, 'harness compile failed: ' + r.stderr[-2000:]
-    mods = [os.path.join(ctx.work, 'libc.bc'), os.path.join(ctx.work, 'models.bc'), base + '.h.bc'] + [os.path.join(ctx.work, t + '.bc') for t in h['tus']]
+    mods = [os.path.join(ctx.work, 'libc.bc'), os.path.join(ctx.work, 'models.bc'), os.path.join(ctx.work, 'convert_models.bc'), base + '.h.bc'] + [os.path.join(ctx.work, t + '.bc') for t in h['tus']]
     r = sh(['llvm-link-14'] + mods + ['-o', base + '.linked.bc'])
     if r.returncode != 0: return None, 'llvm-link failed: ' + r.stderr[-2000:]
     r = sh(['opt-14'] + OPT_PASSES + [base + '.linked.bc', '-o', base + '.bc'])
@@ -261,8 +262,8 @@ def main():
                 q['violation'] = {'kind': j.get('kind'), 'message': j.get('message'), 'where': j.get('where'), 'inputs': j.get('inputs'), 'replayed': ok, 'replay_detail': detail}
                 if not ok:
                     inconclusive.append({'harness': h['name'], 'config': cfgname(cfg), 'role': role, 'why': 'counterexample did not reproduce natively (encoding error or unconfirmable UB): %s %s' % (j.get('kind'), j.get('message')), 'detail': detail}); continue
-                os.makedirs(os.path.join(VERIF, 'replays'), exist_ok=True)
-                rp = os.path.join(VERIF, 'replays', '%s-%s-%s.json' % (pid, h['name'], tag))
+                rdir = os.environ.get('VERIF_REPLAY_DIR', os.path.join(VERIF, 'replays')); os.makedirs(rdir, exist_ok=True)
+                rp = os.path.join(rdir, '%s-%s-%s.json' % (pid, h['name'], tag))
                 json.dump({'property': pid, 'harness': h['name'], 'src': h['src'], 'tus': h['tus'], 'defines': cfg, 'inputs': j.get('inputs'), 'kind': j.get('kind'), 'message': j.get('message'), 'where': j.get('where'), 'native': detail}, open(rp, 'w'), indent=1)
                 if role.startswith('known:'): known_hits.append((role[6:], rp, j.get('message')))
                 else: violations.append((rp, q))
@@ -299,8 +300,8 @@ def main():
             'assumptions': REG.COMMON_ASSUMPTIONS + spec.get('assumptions', []),
             'wall_s': round(time.time() - t0, 2), 'violations': len(violations),
         }
-        os.makedirs(os.path.join(VERIF, 'evidence'), exist_ok=True)
-        json.dump(ev, open(os.path.join(VERIF, 'evidence', pid + '.json'), 'w'), indent=1)
+        edir = os.environ.get('VERIF_EVIDENCE_DIR', os.path.join(VERIF, 'evidence')); os.makedirs(edir, exist_ok=True)
+        json.dump(ev, open(os.path.join(edir, pid + '.json'), 'w'), indent=1)
         print('%s %s: %d queries (%d decided), %d violations, %d known findings, %d inconclusive, %d validation runs, %.1fs' % (pid, tier, len(main_q), ev['coverage']['queries_decided'], len(violations), len(known_hits), len(inconclusive), val_runs, time.time() - t0))
         return rc_final
     finally:
